@@ -444,6 +444,17 @@ impl Runner {
                 ).map_err(err_string);
                 Self::label(&res)
             }
+            Op::RemovePublisher { inst, ca } => {
+                let i = self.world.inst(inst);
+                i.enter();
+                let res = match rpki::ca::idexchange::PublisherHandle::from_str(&ca) {
+                    Ok(publisher) => i.rt().repo_manager().remove_publisher(
+                        publisher, &ADMIN, i.rt()
+                    ).map_err(err_string),
+                    Err(_) => Err("handle".to_string()),
+                };
+                Self::label(&res)
+            }
             Op::RrdpSessionReset { inst } => {
                 let i = self.world.inst(inst);
                 i.enter();
@@ -524,6 +535,9 @@ impl Runner {
                 self.check_caught_up();
                 if self.oracles.c11 {
                     crate::c11::at_caught_up(self);
+                }
+                if self.oracles.c19 {
+                    crate::c19::at_caught_up(self);
                 }
                 "caught_up".into()
             }
@@ -784,6 +798,9 @@ impl Runner {
         if res.is_ok() {
             self.state_changing_ops += 1;
             crate::oracles::note_ca_deleted(self, inst, name);
+            if self.oracles.c19 {
+                crate::c19::after_delete(self, name);
+            }
             self.model.cas.remove(&ca_key(inst, name));
         }
         Self::label(&res)
